@@ -90,6 +90,10 @@ Definition judge_plot1 (case obs : sx) : sx :=
       let ticks_ok := match fld "ticks" case, (x <- fld "xticks" obs ;; d_list d_q x) with
                       | Some (SS "center"), Some t => all2n (pnear xs_scale) t centres
                       | Some (SS "edge"), Some t => all2n Qceqb t lefts
+                      | Some (LL [SS "time"; u; lo; hi]), Some t =>      (* tick_handler=TimeTickHandler(u seconds) on an axis limited to [lo, hi] *)
+                          match d_q u, d_q lo, d_q hi with
+                          | Some u, Some lo, Some hi => all2n (pnear xs_scale) t (ticks_spec lo hi u)
+                          | _, _, _ => false end
                       | Some (SS "none"), _ => true
                       | _, _ => false end in
       let same := match fld "unchanged" obs with Some (SS "T") => true | _ => false end in
